@@ -62,20 +62,108 @@ theorem mtu_tie (m : UInt32) : genMTU_marshal m = mtuMarshal m := by
   unfold genMTU_marshal mtuMarshal genMTU_Code
   simp [makeBytes, putBE32I, pokeAt, rawOption_tie, rawOptMarshal, be32Bytes, List.replicate]
 
+/-! ### `(*RecursiveDNSServer).marshal`: the loop that copies each server into its 16-byte slot -/
+
+theorem copy_slot (P s : Bytes) (m : Nat) :
+    copyI (P ++ List.replicate (16 * (m + 1)) 0) (P.length : Int) ((P.length : Int) + 16) s =
+      .ok ((P ++ pad16 s) ++ List.replicate (16 * m) 0, ((s.take 16).length : Int)) := by
+  unfold copyI
+  have c : (0 : Int) ≤ (P.length : Int) ∧ (P.length : Int) ≤ (P.length : Int) + 16 ∧
+      (P.length : Int) + 16 ≤ ((P ++ List.replicate (16 * (m + 1)) (0 : UInt8)).length : Int) := by
+    simp only [List.length_append, List.length_replicate]; omega
+  rw [if_pos c]
+  have e1 : ((P.length : Int) + 16 - (P.length : Int)).toNat = 16 := by omega
+  simp only [e1, Int.toNat_natCast, List.take_left', Outcome.ok.injEq, Prod.mk.injEq, and_true]
+  have hk : (s.take 16).length ≤ 16 := by simp; omega
+  rw [List.drop_append, List.drop_of_length_le (by omega : P.length ≤ P.length + (s.take 16).length)]
+  simp only [Nat.add_sub_cancel_left, List.drop_replicate, List.nil_append]
+  have : 16 * (m + 1) - (s.take 16).length = (16 - (s.take 16).length) + 16 * m := by omega
+  rw [this, ← List.replicate_append_replicate]
+  simp [pad16, List.append_assoc]
+
+theorem rdnssLoop_eq (r : G_RecursiveDNSServer) (ty len : UInt8) :
+    ∀ (fuel i : Nat) (P : Bytes), i ≤ r.Servers.length → r.Servers.length - i < fuel → P.length = 6 + 16 * i →
+      genRecursiveDNSServer_marshal_loop1 r fuel
+          { Type' := ty, Length := len, Value := P ++ List.replicate (16 * (r.Servers.length - i)) 0 } (i : Int) =
+        .ok { Type' := ty, Length := len, Value := P ++ ((r.Servers.drop i).map pad16).flatten } := by
+  intro fuel
+  induction fuel with
+  | zero => intro i P _ h; omega
+  | succ n ih =>
+    intro i P hi hf hP
+    unfold genRecursiveDNSServer_marshal_loop1
+    by_cases hlt : i < r.Servers.length
+    · have hc : (i : Int) < (r.Servers.length : Int) := by omega
+      rw [if_pos hc]
+      have hidx : listIdxI r.Servers (i : Int) = .ok r.Servers[i] := by
+        unfold listIdxI; simp [hlt]
+      have hm : r.Servers.length - i = (r.Servers.length - (i + 1)) + 1 := by omega
+      have hlo : ((6 : Int) + ((i : Int) * 16)) = (P.length : Int) := by omega
+      have hhi : ((22 : Int) + ((i : Int) * 16)) = (P.length : Int) + 16 := by omega
+      simp only [hidx, Outcome.bind_ok, hlo, hhi]
+      rw [hm, copy_slot]
+      simp only [Outcome.bind_ok]
+      have := ih (i + 1) (P ++ pad16 r.Servers[i]) (by omega) (by omega) (by simp [pad16_length, hP]; omega)
+      rw [show ((i : Int) + 1) = ((i + 1 : Nat) : Int) by omega, this]
+      rw [List.drop_eq_getElem_cons hlt, List.map_cons, List.flatten_cons, List.append_assoc]
+    · have hc : ¬ (i : Int) < (r.Servers.length : Int) := by omega
+      have hd : r.Servers.drop i = [] := List.drop_eq_nil_of_le (by omega)
+      have hz : r.Servers.length - i = 0 := by omega
+      rw [if_neg hc, hd, hz]
+      simp
+
+theorem putBE32I_hdr (R : Bytes) (v : UInt32) :
+    putBE32I ([0, 0, 0, 0, 0, 0] ++ R) 2 6 v = .ok ([0, 0] ++ be32Bytes v ++ R) := by
+  unfold putBE32I pokeAt
+  have c : (0 : Int) ≤ 2 ∧ (2 : Int) ≤ 6 ∧ (6 : Int) ≤ ((([0, 0, 0, 0, 0, 0] : Bytes) ++ R).length : Int) := by
+    simp only [List.length_append, List.length_cons, List.length_nil]; omega
+  rw [if_pos c, if_pos (by omega)]
+  simp [be32Bytes]
+
+theorem u8_twice (n : Nat) : intToUInt8 ((n : Int) * 2) = UInt8.ofNat (2 * n) := by
+  unfold intToUInt8
+  apply UInt8.toNat_inj.mp
+  simp only [UInt8.toNat_ofNat']
+  omega
+
+theorem rdnss_tie (r : G_RecursiveDNSServer) :
+    genRecursiveDNSServer_marshal r = rdnssMarshal (durSecondsU32 r.Lifetime) r.Servers := by
+  unfold genRecursiveDNSServer_marshal rdnssMarshal genRecursiveDNSServer_Code
+  by_cases h0 : r.Servers.length = 0
+  · have he : r.Servers = [] := List.eq_nil_of_length_eq_zero h0
+    simp [he]
+  · have hn : ¬ ((r.Servers.length : Nat) : Int) = 0 := by omega
+    have hne : r.Servers ≠ [] := fun h => h0 (by simp [h])
+    simp only [hn, if_false, hne]
+    have hmk : makeBytes ((6 : Int) + ((r.Servers.length : Int) * 16)) =
+        .ok (([0, 0, 0, 0, 0, 0] : Bytes) ++ List.replicate (16 * r.Servers.length) 0) := by
+      unfold makeBytes
+      rw [if_pos (by omega)]
+      have : ((6 : Int) + ((r.Servers.length : Int) * 16)).toNat = 6 + 16 * r.Servers.length := by omega
+      rw [this, ← List.replicate_append_replicate]
+      rfl
+    simp only [hmk, Outcome.pure_eq, Outcome.bind_ok, putBE32I_hdr, u8_twice]
+    have hl := rdnssLoop_eq r 25 (1 + UInt8.ofNat (2 * r.Servers.length)) (r.Servers.length + 1) 0
+      ([0, 0] ++ be32Bytes (durSecondsU32 r.Lifetime)) (by omega) (by omega) (by simp [be32Bytes])
+    simp only [Nat.sub_zero, Int.natCast_zero, List.drop_zero] at hl
+    have hf : (((r.Servers.length : Int) - 0).toNat + 1) = r.Servers.length + 1 := by omega
+    rw [hf, hl]
+    simp only [Outcome.bind_ok, rawOption_tie]
+
 /-- one option of the list: the dispatch of `o.marshal()` -/
 abbrev optEnc (e1 : G_DNSSearchList → Outcome Bytes) (e2 : G_PrefixInformation → Outcome Bytes)
-    (e3 : G_RecursiveDNSServer → Outcome Bytes) (e4 : G_RouteInformation → Outcome Bytes) (o : I_Option) : Outcome Bytes :=
-  genOption_marshal e1 e2 e3 e4 o
+    (e4 : G_RouteInformation → Outcome Bytes) (o : I_Option) : Outcome Bytes :=
+  genOption_marshal e1 e2 e4 o
 
 theorem idxL_nat {α : Type} (xs : List α) (k : Nat) (h : k < xs.length) : idxL xs (k : Int) = .ok xs[k] := by
   unfold idxL
   simp [h]
 
 theorem optionsLoop_eq (e1 : G_DNSSearchList → Outcome Bytes) (e2 : G_PrefixInformation → Outcome Bytes)
-    (e3 : G_RecursiveDNSServer → Outcome Bytes) (e4 : G_RouteInformation → Outcome Bytes) (options : List I_Option) :
+    (e4 : G_RouteInformation → Outcome Bytes) (options : List I_Option) :
     ∀ (fuel k : Nat) (b : Bytes), k ≤ options.length → options.length - k < fuel →
-      genmarshalOptions_loop1 e1 e2 e3 e4 options fuel (k : Int) b =
-        (do let r ← optionsMarshal ((options.drop k).map (optEnc e1 e2 e3 e4)); pure (b ++ r)) := by
+      genmarshalOptions_loop1 e1 e2 e4 options fuel (k : Int) b =
+        (do let r ← optionsMarshal ((options.drop k).map (optEnc e1 e2 e4)); pure (b ++ r)) := by
   intro fuel
   induction fuel with
   | zero => intro k b _ h; omega
@@ -89,12 +177,12 @@ theorem optionsLoop_eq (e1 : G_DNSSearchList → Outcome Bytes) (e2 : G_PrefixIn
         exact List.drop_eq_getElem_cons hlt
       rw [hd]
       simp only [Outcome.bind_ok, List.map_cons, optionsMarshal, optEnc]
-      cases genOption_marshal e1 e2 e3 e4 options[k] with
+      cases genOption_marshal e1 e2 e4 options[k] with
       | ok ob =>
         simp only [Outcome.bind_ok]
         have := ih (k + 1) (b ++ ob) (by omega) (by omega)
         rw [show ((k : Int) + 1) = ((k + 1 : Nat) : Int) by omega, this]
-        cases optionsMarshal (List.map (optEnc e1 e2 e3 e4) (List.drop (k + 1) options)) <;> simp
+        cases optionsMarshal (List.map (optEnc e1 e2 e4) (List.drop (k + 1) options)) <;> simp
       | err e => rfl
       | panic => rfl
       | hang => rfl
@@ -104,20 +192,20 @@ theorem optionsLoop_eq (e1 : G_DNSSearchList → Outcome Bytes) (e2 : G_PrefixIn
       simp [optionsMarshal]
 
 theorem marshalOptions_tie (e1 : G_DNSSearchList → Outcome Bytes) (e2 : G_PrefixInformation → Outcome Bytes)
-    (e3 : G_RecursiveDNSServer → Outcome Bytes) (e4 : G_RouteInformation → Outcome Bytes) (options : List I_Option) :
-    genmarshalOptions e1 e2 e3 e4 options = optionsMarshal (options.map (optEnc e1 e2 e3 e4)) := by
+    (e4 : G_RouteInformation → Outcome Bytes) (options : List I_Option) :
+    genmarshalOptions e1 e2 e4 options = optionsMarshal (options.map (optEnc e1 e2 e4)) := by
   unfold genmarshalOptions
-  have := optionsLoop_eq e1 e2 e3 e4 options (options.length + 1) 0 [] (by omega) (by omega)
+  have := optionsLoop_eq e1 e2 e4 options (options.length + 1) 0 [] (by omega) (by omega)
   simp only [Int.natCast_zero] at this
   simp only [this, List.drop_zero, List.nil_append]
-  cases optionsMarshal (List.map (optEnc e1 e2 e3 e4) options) <;> rfl
+  cases optionsMarshal (List.map (optEnc e1 e2 e4) options) <;> rfl
 
 theorem rs_tie (e1 : G_DNSSearchList → Outcome Bytes) (e2 : G_PrefixInformation → Outcome Bytes)
-    (e3 : G_RecursiveDNSServer → Outcome Bytes) (e4 : G_RouteInformation → Outcome Bytes) (rs : G_RouterSolicitation) :
-    genRouterSolicitation_marshal e1 e2 e3 e4 rs = rsMarshal (rs.Options.map (optEnc e1 e2 e3 e4)) := by
+    (e4 : G_RouteInformation → Outcome Bytes) (rs : G_RouterSolicitation) :
+    genRouterSolicitation_marshal e1 e2 e4 rs = rsMarshal (rs.Options.map (optEnc e1 e2 e4)) := by
   unfold genRouterSolicitation_marshal rsMarshal genRouterSolicitation_Type
   rw [marshalOptions_tie]
-  cases optionsMarshal (List.map (optEnc e1 e2 e3 e4) rs.Options) <;> simp [makeBytes, intToUInt8, List.replicate]
+  cases optionsMarshal (List.map (optEnc e1 e2 e4) rs.Options) <;> simp [makeBytes, intToUInt8, List.replicate]
 
 theorem idxI_1 (a b : UInt8) (r : Bytes) : idxI (a :: b :: r) 1 = .ok b := by
   unfold idxI
@@ -135,64 +223,64 @@ theorem checkPreference_err (p : Int) (h : ¬ (p = 0 ∨ p = 1 ∨ p = 3)) : gen
 
 /-- the valid-preference part of `ra_tie`, preference 0 (16 flag combinations) -/
 theorem ra_tie_p0 (e1 : G_DNSSearchList → Outcome Bytes) (e2 : G_PrefixInformation → Outcome Bytes)
-    (e3 : G_RecursiveDNSServer → Outcome Bytes) (e4 : G_RouteInformation → Outcome Bytes) (ra : G_RouterAdvertisement)
+    (e4 : G_RouteInformation → Outcome Bytes) (ra : G_RouterAdvertisement)
     (h : ra.RouterSelectionPreference = 0) :
-    genRouterAdvertisement_marshal e1 e2 e3 e4 ra =
+    genRouterAdvertisement_marshal e1 e2 e4 ra =
       raMarshal ra.CurrentHopLimit ra.ManagedConfiguration ra.OtherConfiguration ra.MobileIPv6HomeAgent
         0 ra.NeighborDiscoveryProxy (durSecondsU16 ra.RouterLifetime)
         (intToUInt32 (Int.tdiv ra.ReachableTime 1000000)) (intToUInt32 (Int.tdiv ra.RetransmitTimer 1000000))
-        (ra.Options.map (optEnc e1 e2 e3 e4)) := by
+        (ra.Options.map (optEnc e1 e2 e4)) := by
   unfold genRouterAdvertisement_marshal raMarshal genRouterAdvertisement_Type
   rw [h, checkPreference_ok _ (by omega), if_pos (by omega), marshalOptions_tie]
-  generalize optionsMarshal (List.map (optEnc e1 e2 e3 e4) ra.Options) = X
+  generalize optionsMarshal (List.map (optEnc e1 e2 e4) ra.Options) = X
   cases ra.ManagedConfiguration <;> cases ra.OtherConfiguration <;> cases ra.MobileIPv6HomeAgent <;>
   cases ra.NeighborDiscoveryProxy <;>
   simp [makeBytes, List.replicate, setI_0, setI_1, idxI_1, putBE16I, putBE32I, pokeAt, intToUInt8, raFlags, be32Bytes]
 
 /-- the valid-preference part of `ra_tie`, preference 1 (16 flag combinations) -/
 theorem ra_tie_p1 (e1 : G_DNSSearchList → Outcome Bytes) (e2 : G_PrefixInformation → Outcome Bytes)
-    (e3 : G_RecursiveDNSServer → Outcome Bytes) (e4 : G_RouteInformation → Outcome Bytes) (ra : G_RouterAdvertisement)
+    (e4 : G_RouteInformation → Outcome Bytes) (ra : G_RouterAdvertisement)
     (h : ra.RouterSelectionPreference = 1) :
-    genRouterAdvertisement_marshal e1 e2 e3 e4 ra =
+    genRouterAdvertisement_marshal e1 e2 e4 ra =
       raMarshal ra.CurrentHopLimit ra.ManagedConfiguration ra.OtherConfiguration ra.MobileIPv6HomeAgent
         1 ra.NeighborDiscoveryProxy (durSecondsU16 ra.RouterLifetime)
         (intToUInt32 (Int.tdiv ra.ReachableTime 1000000)) (intToUInt32 (Int.tdiv ra.RetransmitTimer 1000000))
-        (ra.Options.map (optEnc e1 e2 e3 e4)) := by
+        (ra.Options.map (optEnc e1 e2 e4)) := by
   unfold genRouterAdvertisement_marshal raMarshal genRouterAdvertisement_Type
   rw [h, checkPreference_ok _ (by omega), if_pos (by omega), marshalOptions_tie]
-  generalize optionsMarshal (List.map (optEnc e1 e2 e3 e4) ra.Options) = X
+  generalize optionsMarshal (List.map (optEnc e1 e2 e4) ra.Options) = X
   cases ra.ManagedConfiguration <;> cases ra.OtherConfiguration <;> cases ra.MobileIPv6HomeAgent <;>
   cases ra.NeighborDiscoveryProxy <;>
   simp [makeBytes, List.replicate, setI_0, setI_1, idxI_1, putBE16I, putBE32I, pokeAt, intToUInt8, raFlags, be32Bytes]
 
 /-- the valid-preference part of `ra_tie`, preference 3 (16 flag combinations) -/
 theorem ra_tie_p3 (e1 : G_DNSSearchList → Outcome Bytes) (e2 : G_PrefixInformation → Outcome Bytes)
-    (e3 : G_RecursiveDNSServer → Outcome Bytes) (e4 : G_RouteInformation → Outcome Bytes) (ra : G_RouterAdvertisement)
+    (e4 : G_RouteInformation → Outcome Bytes) (ra : G_RouterAdvertisement)
     (h : ra.RouterSelectionPreference = 3) :
-    genRouterAdvertisement_marshal e1 e2 e3 e4 ra =
+    genRouterAdvertisement_marshal e1 e2 e4 ra =
       raMarshal ra.CurrentHopLimit ra.ManagedConfiguration ra.OtherConfiguration ra.MobileIPv6HomeAgent
         3 ra.NeighborDiscoveryProxy (durSecondsU16 ra.RouterLifetime)
         (intToUInt32 (Int.tdiv ra.ReachableTime 1000000)) (intToUInt32 (Int.tdiv ra.RetransmitTimer 1000000))
-        (ra.Options.map (optEnc e1 e2 e3 e4)) := by
+        (ra.Options.map (optEnc e1 e2 e4)) := by
   unfold genRouterAdvertisement_marshal raMarshal genRouterAdvertisement_Type
   rw [h, checkPreference_ok _ (by omega), if_pos (by omega), marshalOptions_tie]
-  generalize optionsMarshal (List.map (optEnc e1 e2 e3 e4) ra.Options) = X
+  generalize optionsMarshal (List.map (optEnc e1 e2 e4) ra.Options) = X
   cases ra.ManagedConfiguration <;> cases ra.OtherConfiguration <;> cases ra.MobileIPv6HomeAgent <;>
   cases ra.NeighborDiscoveryProxy <;>
   simp [makeBytes, List.replicate, setI_0, setI_1, idxI_1, putBE16I, putBE32I, pokeAt, intToUInt8, raFlags, be32Bytes]
 
 theorem ra_tie (e1 : G_DNSSearchList → Outcome Bytes) (e2 : G_PrefixInformation → Outcome Bytes)
-    (e3 : G_RecursiveDNSServer → Outcome Bytes) (e4 : G_RouteInformation → Outcome Bytes) (ra : G_RouterAdvertisement) :
-    genRouterAdvertisement_marshal e1 e2 e3 e4 ra =
+    (e4 : G_RouteInformation → Outcome Bytes) (ra : G_RouterAdvertisement) :
+    genRouterAdvertisement_marshal e1 e2 e4 ra =
       raMarshal ra.CurrentHopLimit ra.ManagedConfiguration ra.OtherConfiguration ra.MobileIPv6HomeAgent
         ra.RouterSelectionPreference ra.NeighborDiscoveryProxy (durSecondsU16 ra.RouterLifetime)
         (intToUInt32 (Int.tdiv ra.ReachableTime 1000000)) (intToUInt32 (Int.tdiv ra.RetransmitTimer 1000000))
-        (ra.Options.map (optEnc e1 e2 e3 e4)) := by
+        (ra.Options.map (optEnc e1 e2 e4)) := by
   by_cases hp : ra.RouterSelectionPreference = 0 ∨ ra.RouterSelectionPreference = 1 ∨ ra.RouterSelectionPreference = 3
   · rcases hp with h | h | h
-    · rw [ra_tie_p0 e1 e2 e3 e4 ra h, h]
-    · rw [ra_tie_p1 e1 e2 e3 e4 ra h, h]
-    · rw [ra_tie_p3 e1 e2 e3 e4 ra h, h]
+    · rw [ra_tie_p0 e1 e2 e4 ra h, h]
+    · rw [ra_tie_p1 e1 e2 e4 ra h, h]
+    · rw [ra_tie_p3 e1 e2 e4 ra h, h]
   · unfold genRouterAdvertisement_marshal raMarshal
     rw [checkPreference_err _ hp, if_neg hp]
     rfl
@@ -200,36 +288,36 @@ theorem ra_tie (e1 : G_DNSSearchList → Outcome Bytes) (e2 : G_PrefixInformatio
 /-! ### `o.marshal()`: which encoder each dynamic type reaches -/
 
 theorem option_dispatch (e1 : G_DNSSearchList → Outcome Bytes) (e2 : G_PrefixInformation → Outcome Bytes)
-    (e3 : G_RecursiveDNSServer → Outcome Bytes) (e4 : G_RouteInformation → Outcome Bytes) :
-    optEnc e1 e2 e3 e4 .nil_ = .panic ∧
-    (∀ v, optEnc e1 e2 e3 e4 (.LinkLayerAddress v) = llaMarshal v.Direction v.MAC) ∧
-    (∀ v, optEnc e1 e2 e3 e4 (.MTU v) = mtuMarshal v) ∧
-    (∀ v, optEnc e1 e2 e3 e4 (.RawOption v) = rawOptMarshal v.Type' v.Length v.Value) ∧
-    (∀ v, optEnc e1 e2 e3 e4 (.DNSSearchList v) = e1 v) ∧
-    (∀ v, optEnc e1 e2 e3 e4 (.PrefixInformation v) = e2 v) ∧
-    (∀ v, optEnc e1 e2 e3 e4 (.RecursiveDNSServer v) = e3 v) ∧
-    (∀ v, optEnc e1 e2 e3 e4 (.RouteInformation v) = e4 v) :=
-  ⟨rfl, fun v => lla_tie v, fun v => mtu_tie v, fun v => rawOption_tie v, fun _ => rfl, fun _ => rfl, fun _ => rfl, fun _ => rfl⟩
+    (e4 : G_RouteInformation → Outcome Bytes) :
+    optEnc e1 e2 e4 .nil_ = .panic ∧
+    (∀ v, optEnc e1 e2 e4 (.LinkLayerAddress v) = llaMarshal v.Direction v.MAC) ∧
+    (∀ v, optEnc e1 e2 e4 (.MTU v) = mtuMarshal v) ∧
+    (∀ v, optEnc e1 e2 e4 (.RawOption v) = rawOptMarshal v.Type' v.Length v.Value) ∧
+    (∀ v, optEnc e1 e2 e4 (.DNSSearchList v) = e1 v) ∧
+    (∀ v, optEnc e1 e2 e4 (.PrefixInformation v) = e2 v) ∧
+    (∀ v, optEnc e1 e2 e4 (.RecursiveDNSServer v) = rdnssMarshal (durSecondsU32 v.Lifetime) v.Servers) ∧
+    (∀ v, optEnc e1 e2 e4 (.RouteInformation v) = e4 v) :=
+  ⟨rfl, fun v => lla_tie v, fun v => mtu_tie v, fun v => rawOption_tie v, fun _ => rfl, fun _ => rfl, fun v => rdnss_tie v, fun _ => rfl⟩
 
 /-- the message `ICMP6SendRouterSolicitation` builds (one source link-layer address option with the NIC's MAC): for
     every 6-byte MAC it is the 16-byte router solicitation of RFC 4861 4.1 -/
 theorem rs_with_source_lla (e1 : G_DNSSearchList → Outcome Bytes) (e2 : G_PrefixInformation → Outcome Bytes)
-    (e3 : G_RecursiveDNSServer → Outcome Bytes) (e4 : G_RouteInformation → Outcome Bytes) (src mac : Bytes) (h : mac.length = 6) :
-    genRouterSolicitation_marshal e1 e2 e3 e4 { SourceLLA := src, Options := [.LinkLayerAddress { Direction := 1, MAC := mac }] } =
+    (e4 : G_RouteInformation → Outcome Bytes) (src mac : Bytes) (h : mac.length = 6) :
+    genRouterSolicitation_marshal e1 e2 e4 { SourceLLA := src, Options := [.LinkLayerAddress { Direction := 1, MAC := mac }] } =
       .ok ([133, 0, 0, 0, 0, 0, 0, 0, 1, 1] ++ mac) := by
   rw [rs_tie]
-  simp [rsMarshal, optionsMarshal, (option_dispatch e1 e2 e3 e4).2.1, llaMarshal, h]
+  simp [rsMarshal, optionsMarshal, (option_dispatch e1 e2 e4).2.1, llaMarshal, h]
 
 /-- a MAC of another length makes the solicitation fail with an error: nothing is sent -/
 theorem rs_bad_mac (e1 : G_DNSSearchList → Outcome Bytes) (e2 : G_PrefixInformation → Outcome Bytes)
-    (e3 : G_RecursiveDNSServer → Outcome Bytes) (e4 : G_RouteInformation → Outcome Bytes) (src mac : Bytes) (h : mac.length ≠ 6) :
-    genRouterSolicitation_marshal e1 e2 e3 e4 { SourceLLA := src, Options := [.LinkLayerAddress { Direction := 1, MAC := mac }] } =
+    (e4 : G_RouteInformation → Outcome Bytes) (src mac : Bytes) (h : mac.length ≠ 6) :
+    genRouterSolicitation_marshal e1 e2 e4 { SourceLLA := src, Options := [.LinkLayerAddress { Direction := 1, MAC := mac }] } =
       .err .other := by
   rw [rs_tie]
-  simp [rsMarshal, optionsMarshal, (option_dispatch e1 e2 e3 e4).2.1, llaMarshal, h]
+  simp [rsMarshal, optionsMarshal, (option_dispatch e1 e2 e4).2.1, llaMarshal, h]
 
 /-- non-vacuity: a router advertisement with hop limit 64, lifetime 1800 s, an MTU option and a source LLA -/
-example : genRouterAdvertisement_marshal (fun _ => .err .other) (fun _ => .err .other) (fun _ => .err .other) (fun _ => .err .other)
+example : genRouterAdvertisement_marshal (fun _ => .err .other) (fun _ => .err .other) (fun _ => .err .other)
     { CurrentHopLimit := 64, ManagedConfiguration := false, OtherConfiguration := false, MobileIPv6HomeAgent := false,
       RouterSelectionPreference := 0, NeighborDiscoveryProxy := false, RouterLifetime := 1800000000000, ReachableTime := 0,
       RetransmitTimer := 0, Options := [I_Option.MTU 1500, I_Option.LinkLayerAddress { Direction := 1, MAC := [2, 0, 0, 0, 0, 1] }] } =
@@ -240,18 +328,16 @@ example : genRouterAdvertisement_marshal (fun _ => .err .other) (fun _ => .err .
 theorem translated_accounted : marshalTranslated.map (·.1) =
     ["packet.(*RawOption).marshal", "packet.(*LinkLayerAddress).Code", "packet.(*LinkLayerAddress).marshal", "packet.(*MTU).Code",
      "packet.(*MTU).marshal", "packet.(*PrefixInformation).Code", "packet.(*RouteInformation).Code",
-     "packet.(*RecursiveDNSServer).Code", "packet.(*DNSSearchList).Code", "packet.(Option).marshal", "packet.marshalOptions",
+     "packet.(*RecursiveDNSServer).Code", "packet.(*RecursiveDNSServer).marshal", "packet.(*DNSSearchList).Code", "packet.(Option).marshal", "packet.marshalOptions",
      "packet.(*RouterSolicitation).Type", "packet.(*RouterSolicitation).marshal", "packet.(*RouterAdvertisement).Type",
      "packet.checkPreference", "packet.(*RouterAdvertisement).marshal"] := by decide
 
 theorem untranslated_accounted : marshalUntranslated.map (·.1) =
-    ["packet.(*PrefixInformation).marshal", "packet.(*RouteInformation).marshal", "packet.(*RecursiveDNSServer).marshal",
-     "packet.(*DNSSearchList).marshal"] := by decide
+    ["packet.(*PrefixInformation).marshal", "packet.(*RouteInformation).marshal", "packet.(*DNSSearchList).marshal"] := by decide
 
-/-- the external callees are exactly the four untranslated option encoders, taken by the dispatch and passed down -/
+/-- the external callees are exactly the three untranslated option encoders, taken by the dispatch and passed down -/
 theorem externals_accounted : (marshalExternals.map (fun e => e.2.2.1)).eraseDups =
-    ["packet.(*DNSSearchList).marshal", "packet.(*PrefixInformation).marshal", "packet.(*RecursiveDNSServer).marshal",
-     "packet.(*RouteInformation).marshal"] := by decide
+    ["packet.(*DNSSearchList).marshal", "packet.(*PrefixInformation).marshal", "packet.(*RouteInformation).marshal"] := by decide
 
 theorem assumptions_accounted : marshalAssumptions.map (·.1) =
     ["capEqLen", "durSeconds", "errDropsResults", "externMarshalPure", "intNoOverflow", "noAlias", "recvNonNil", "stdStringTotal"] := by
@@ -259,7 +345,7 @@ theorem assumptions_accounted : marshalAssumptions.map (·.1) =
 
 theorem errs_accounted : marshalErrs.all (fun e => e.2 == Err.other) = true := by decide
 
-theorem fuels_accounted : marshalFuels = [("genmarshalOptions_loop1", "options.length + 1")] := by decide
+theorem fuels_accounted : marshalFuels.map (·.1) = ["genRecursiveDNSServer_marshal_loop1", "genmarshalOptions_loop1"] := by decide
 
 theorem nil_sites_accounted : marshalNilSites = [] := by decide
 
